@@ -144,9 +144,59 @@ pub fn run_alloc<T: Model>(ctx: &mut Ctx) {
     note_case("");
 }
 
+/// types whose in-memory size is large compared with short inputs: a decoder must not reserve for them
+/// before it has seen the bytes (only the allocation is measured, values are not printed)
+pub fn run_alloc_large(ctx: &mut Ctx) {
+    use ssz::{BitList, BitVector, Decode};
+    use typenum::{U1048576, U65536};
+    fn one<T: Decode>(ctx: &mut Ctx, desc: &str) {
+        let inputs: Vec<Vec<u8>> = vec![vec![], vec![0], vec![1], vec![1, 2, 3], vec![0xff; 8], vec![0u8; 64], vec![4, 0, 0, 0, 1], vec![1, 0]];
+        for b in inputs {
+            let hx = hex(&b);
+            note_case(&format!("alloc\t{}\t{}", desc, hx));
+            let (_, m) = measure(|| {
+                let r = catch_unwind(AssertUnwindSafe(|| T::from_ssz_bytes(&b)));
+                drop(r);
+            });
+            ctx.out.emit("LE:C06", "alloc", &m.total.to_string(), &["alloc", desc, &hx]);
+        }
+    }
+    one::<BitVector<U65536>>(ctx, "BV65536");
+    one::<BitList<U65536>>(ctx, "BL65536");
+    one::<BitVector<U1048576>>(ctx, "BV1048576");
+    one::<Vec<BitVector<U65536>>>(ctx, "L(BV65536)");
+    one::<Option<BitVector<U1048576>>>(ctx, "O(BV1048576)");
+    one::<(u8, BitVector<U65536>)>(ctx, "T(U1,BV65536)");
+    one::<Vec<[u8; 4096]>>(ctx, "L(X4096)");
+    one::<Vec<alloy_primitives::Bloom>>(ctx, "L(X256)");
+    note_case("");
+}
+
 /// over-limit list decoding does not reserve space for the announced items (C16)
 pub fn run_alloc_listvar(ctx: &mut Ctx) {
     use crate::lowlevel::{Probe, VecC};
+    // a generous limit must not replace the physical bound: short inputs announcing many items
+    for first in [1u32 << 10, 1 << 16, 1 << 20, 1 << 24] {
+        let n = (first / 4) as usize;
+        for extra in [0usize, 1, 8] {
+            let mut b = first.to_le_bytes().to_vec();
+            b.extend(vec![0u8; extra]);
+            for max in [n, n + 1, usize::MAX / 8] {
+                let hx = hex(&b);
+                note_case(&format!("listvar\t{}\tv\t{}", max, hx));
+                let (res, m) = measure(|| {
+                    let r = catch_unwind(AssertUnwindSafe(|| ssz::decode_list_of_variable_length_items::<Probe, VecC>(&b, Some(max))));
+                    matches!(r, Ok(Err(_)))
+                });
+                ctx.out.r("C06", "alloc", res && m.total <= 1024, &["short_input_reserves_nothing", "listvar", &max.to_string(), "v", &hx, &format!("total={}", m.total)]);
+                let (res2, m2) = measure(|| {
+                    let r = catch_unwind(AssertUnwindSafe(|| ssz::decode_list_of_variable_length_items::<Probe, Vec<Probe>>(&b, Some(max))));
+                    matches!(r, Ok(Err(_)))
+                });
+                ctx.out.r("C06", "alloc", res2 && m2.total <= 1024, &["short_input_reserves_nothing_vec", "listvar", &max.to_string(), "v", &hx, &format!("total={}", m2.total)]);
+            }
+        }
+    }
     for first in [8u32, 12, 1 << 10, 1 << 20, 1 << 28] {
         let n = (first / 4) as usize;
         // a well-formed header needs first <= len: build `n` empty items when small, otherwise only the header word
